@@ -36,7 +36,8 @@ def main():
             sub = {"xixi_kv": ".", "xixi_kv_test": "."}.get(pkg, pkg.replace("_test", ""))
             tests = re.findall(r"^func (Test\w+)\(", src, re.M)
             pat = "|".join(tests)
-            race = "-race " if re.search(r"^//go:build .*\brace\b", src, re.M) else ""
+            notes = open(f"{seed}/notes.md").read() if os.path.exists(f"{seed}/notes.md") else ""
+            race = "-race " if re.search(r"^//go:build .*\brace\b", src, re.M) or "go test -race" in notes else ""
             for name, root in (("with_change", mut), ("without_change", clean)):
                 shutil.copy(f"{seed}/{demo}", f"{root}/{sub}/zz_seed_{demo}")
                 rc, o = sh(f"go test {race}-vet=off -count=1 -run '^({pat})$' ./{sub}", cwd=root, timeout=900)
